@@ -113,7 +113,7 @@ pub fn gen_verdict_case(t: &mut Tape) -> VerdictCase {
 }
 
 /// `force`: the mutation choice for the last level (0 none, 2 rename, 3 receiver, 4 parameter, 5 return,
-/// 6 calling convention, 7 missing slot, 8 swap, 9 default convention spelled out) instead of a drawn one
+/// 6 calling convention, 7 missing slot, 8 swap, 9 default convention spelled out, 10 size dropped, 11 function moved by an index) instead of a drawn one
 pub fn gen_verdict_case_with(t: &mut Tape, force: Option<u64>) -> VerdictCase {
     let w = if t.chance(1, 2) { 8 } else { 4 };
     let depth = 1 + t.below(4) as usize; // number of derivation steps
@@ -162,6 +162,14 @@ pub fn gen_verdict_case_with(t: &mut Tape, force: Option<u64>) -> VerdictCase {
         ..Default::default()
     }));
     let mut mutation = "none".to_string();
+    // Some(shadow): the last level goes into a second module that imports its base by name; with `shadow` that
+    // module has a type `L0` of its own (the block's text is the base's, its meaning is not), without it
+    // imports the root's `L0` by name (a faithful restatement across modules)
+    let mut other_module: Option<bool> = None;
+    let mut second = Mod {
+        path: vec!["h2".into()],
+        ..Default::default()
+    };
     for level in 1..=depth {
         let last = level == depth;
         let mut block = table.clone();
@@ -185,7 +193,13 @@ pub fn gen_verdict_case_with(t: &mut Tape, force: Option<u64>) -> VerdictCase {
         if last {
             // one mutation of the compatible prefix (or none)
             let k = t.below(table.len().max(1) as u64) as usize;
-            let mut drawn = t.below(11);
+            let mut drawn = t.below(14);
+            // 12 / 13: the last level lives in a module of its own; 12 only when a base slot mentions `L0`
+            let mentions_l0 = |f: &Func| f.args.iter().any(|a| matches!(a, Arg::Named(_, ty) if ty.leaf() == Some("L0"))) || f.ret.as_ref().map(|r| r.leaf() == Some("L0")).unwrap_or(false);
+            // (at depth 1 the base *is* L0 and has to be imported by name, which would win over the local type)
+            if drawn == 12 && (!table.iter().any(mentions_l0) || depth < 2) {
+                drawn = 13;
+            }
             // 10: the declared size that restates the base's reserved slots is dropped (only when there is one)
             if drawn == 10 && own_size.is_none() {
                 drawn = 0;
@@ -266,6 +280,31 @@ pub fn gen_verdict_case_with(t: &mut Tape, force: Option<u64>) -> VerdictCase {
                     own_size = None;
                     mutation = "reserved base slots not restated".into();
                 }
+                12 => {
+                    other_module = Some(true);
+                    mutation = "same text in another module where `L0` is another type".into();
+                }
+                13 => {
+                    other_module = Some(false);
+                }
+                11 => {
+                    // the last inherited function is given an index one slot further on: an unnamed slot now
+                    // stands where the base has it
+                    let last_k = table.len() - 1;
+                    let slots = vft_slots(&Vft { size: None, funcs: b.clone() });
+                    let old = slots.slot[last_k];
+                    b[last_k].index = Some(Num::d(old as i128 + 1));
+                    // functions after it keep following it; a restated size must still cover the table
+                    for f in b.iter_mut().skip(last_k + 1) {
+                        if let Some(ix) = &mut f.index {
+                            ix.v += 1;
+                        }
+                    }
+                    if let Some(sz) = own_size {
+                        own_size = Some(sz + 1);
+                    }
+                    mutation = "inherited function moved to a later index".into();
+                }
                 _ => {
                     // spelling the default convention explicitly is not a change
                     if b[k].cc.is_none() {
@@ -284,14 +323,33 @@ pub fn gen_verdict_case_with(t: &mut Tape, force: Option<u64>) -> VerdictCase {
             fields.push(side);
         }
         fields.push(Field::new(&format!("own{level}"), Ty::n("u64")));
-        m.items.push(Item::Type(TypeDef {
+        let level_type = Item::Type(TypeDef {
             vis: true,
             name: format!("L{level}"),
             packed: true,
             vft: own_block.clone().map(|funcs| Vft { size: own_size.map(|s| Num::d(s as i128)), funcs }),
             fields,
             ..Default::default()
-        }));
+        });
+        match (last, other_module) {
+            (true, Some(shadow)) => {
+                second.uses.push(vec!["h".into(), format!("L{}", level - 1)]);
+                second.uses.push(vec!["h".into(), "Side".into()]);
+                if shadow {
+                    second.items.push(Item::Type(TypeDef {
+                        vis: true,
+                        name: "L0".into(),
+                        packed: true,
+                        fields: vec![Field::new("other", Ty::Unk(3))],
+                        ..Default::default()
+                    }));
+                } else if level > 1 {
+                    second.uses.push(vec!["h".into(), "L0".into()]);
+                }
+                second.items.push(level_type);
+            }
+            _ => m.items.push(level_type),
+        }
         if let Some(b) = own_block {
             if !last {
                 base_len = own_size.unwrap_or(natural(&b)).max(natural(&b));
@@ -299,8 +357,12 @@ pub fn gen_verdict_case_with(t: &mut Tape, force: Option<u64>) -> VerdictCase {
             }
         }
     }
+    let mut mods = vec![m];
+    if !second.items.is_empty() {
+        mods.push(second);
+    }
     VerdictCase {
-        prog: Prog { mods: vec![m] },
+        prog: Prog { mods },
         w,
         mutation,
     }
@@ -313,7 +375,7 @@ impl Prop for Verdict_ {
         "C06/verdict".into()
     }
     fn rule(&self) -> String {
-        "chains of depth 1-4 over a root with a 0-4 slot table (index gaps, all seven conventions, 0-3 parameters of integer, *const/*mut (also to the root type, two levels deep, to arrays) and small array types, optional return), optional second base with its own table, intermediate levels extending or inheriting the table; the last level's own block is the compatible prefix (+0-2 new slots) with at most one mutation: renamed slot, receiver flipped, one parameter's type changed in one place (leaf, pointer kind, array length, one level of indirection; any parameter), return type added/removed/changed the same way, calling convention changed to a different effective one, last base slot missing, two differing slots swapped, the size that restates slots reserved by the base's #[size] dropped; controls: no mutation, default convention spelled out. Oracle: Ok iff no mutation. Every case is non-trivial (depth >= 2, or >= 2 bases, or a mutation)".into()
+        "chains of depth 1-4 over a root with a 0-4 slot table (index gaps, all seven conventions, 0-3 parameters of integer, *const/*mut (also to the root type, two levels deep, to arrays) and small array types, optional return), optional second base with its own table, intermediate levels extending or inheriting the table; the last level's own block is the compatible prefix (+0-2 new slots) with at most one mutation: renamed slot, receiver flipped, one parameter's type changed in one place (leaf, pointer kind, array length, one level of indirection; any parameter), return type added/removed/changed the same way, calling convention changed to a different effective one, last base slot missing, two differing slots swapped, the size that restates slots reserved by the base's #[size] dropped, the last inherited function moved one slot further by an #[index], the block's text kept but placed in a second module where a type name it mentions denotes another type; controls: no mutation, default convention spelled out, the faithful block in a second module that imports what it mentions. Oracle: Ok iff no mutation. Every case is non-trivial (depth >= 2, or >= 2 bases, or a mutation)".into()
     }
     fn gen(&self, t: &mut Tape) -> VerdictCase {
         gen_verdict_case(t)
